@@ -394,6 +394,24 @@ M("t4-revert-F30-null-to-parse-free", ["C13"], "break",
   [("yaep.c", "      if (node->val._anode_name.name != NULL)\n	parse_free (node->val._anode_name.name);", "      parse_free (node->val._anode_name.name);")], "free_tree_sweep/release")
 M("r11-sweep-name-never-released", ["C13"], "break",
   [("yaep.c", "      if (node->val._anode_name.name != NULL)\n	parse_free (node->val._anode_name.name);", "      ;")], "free_tree_sweep/YAEP_ANODE/name")
+M("r10-loop-test-wrong-index", ["C10", "C12"], "break",
+  [("yaep.c", "	    else if (!rule->rhs[j]->empty_p)\n	      break;\n	  if (j >= rule->rhs_len)\n	    symb->u.nonterm.loop_p = 1;", "	    else if (!rule->rhs[i]->empty_p)\n	      break;\n	  if (j >= rule->rhs_len)\n	    symb->u.nonterm.loop_p = 1;")],
+  "set_loop_p/exit-depends-on-element")
+M("r13-collect-after-rewrite", ["C13", "C04"], "break",
+  [("yaep.c", "	  if (parse_free != NULL)\n	    VLO_ADD_MEMORY (tnodes_vlo, &alt, sizeof (alt));\n	  next_alt = alt->val.alt.next;\n	  alt->val.alt.node = prune_to_minimal (alt->val.alt.node, cost);",
+    "	  next_alt = alt->val.alt.next;\n	  alt->val.alt.node = prune_to_minimal (alt->val.alt.node, cost);\n	  if (parse_free != NULL && min_cost <= *cost && alt != node)\n	    VLO_ADD_MEMORY (tnodes_vlo, &alt, sizeof (alt));")],
+  "prune_to_minimal/alt.node")
+M("r13-collect-after-next-benign", ["C13", "C04"], "benign",
+  [("yaep.c", "	  if (parse_free != NULL)\n	    VLO_ADD_MEMORY (tnodes_vlo, &alt, sizeof (alt));\n	  next_alt = alt->val.alt.next;\n", "	  next_alt = alt->val.alt.next;\n	  if (parse_free != NULL)\n	    VLO_ADD_MEMORY (tnodes_vlo, &alt, sizeof (alt));\n")])
+M("r11-move-keeps-old-slot", ["C13"], "break",
+  [("yaep.c", "		  node->val.anode.children[freePos] =\n		    node->val.anode.children[pos];\n		  node->val.anode.children[pos] = NULL;", "		  node->val.anode.children[freePos] =\n		    node->val.anode.children[pos];")],
+  "free_tree_reduce/child-move")
+M("r21-revert-F31-initial-sit-dedupe", ["C01", "C09"], "break",
+  [("yaep.c", "  for (i = new_core->n_all_dists; i < new_core->n_sits; i++)\n    if (new_sits[i] == sit)\n      return;", "  for (i = new_n_start_sits; i < new_core->n_sits; i++)\n    if (new_sits[i] == sit)\n      return;")],
+  "set_new_add_initial_sit/duplicate-test")
+M("r21-nonstart-dedupe-ignores-parent", ["C01", "C09"], "break",
+  [("yaep.c", "    if (new_sits[i] == sit && new_core->parent_indexes[i] == parent)\n      return;", "    if (new_sits[i] == sit)\n      return;")],
+  "set_add_new_nonstart_sit/duplicate-test")
 
 # ---- R8 / R2f (C16, C19) ----------------------------------------------------------------------------
 M("r8-revert-F14", ["C19", "C16"], "break", [("hashtab.cpp", "		  entry_ptr = first_deleted_entry_ptr;\n		  *entry_ptr = EMPTY_ENTRY;", "		  entry_ptr = first_deleted_entry_ptr;\n		  *entry_ptr = DELETED_ENTRY;")], "find_hash_table_entry~")
